@@ -280,10 +280,11 @@ def dotted_prefixes(s, min_parts=1):
     return {".".join(parts[:i]) for i in range(min_parts, len(parts))}
 
 
-def justification_sets(fn):
-    """Everything C02 admits as a reported name, per kind, with the rule that admits it."""
+def justification_sets(fn, nodes=None):
+    """Everything C02 admits as a reported name, per kind, with the rule that admits it.
+    `nodes` (optional): judge this iterable of AST nodes instead of every node of the body of `fn`."""
     just = {"get": {}, "set": {}, "del": {}, "call": {}}
-    for n in all_nodes(fn):
+    for n in (all_nodes(fn) if nodes is None else nodes):
         if isinstance(n, (ast.Name, ast.Attribute, ast.Subscript, ast.Starred)):
             just[KIND[type(n.ctx)]].setdefault(spell(n), "occurrence")
         if isinstance(n, ast.Call):
